@@ -141,9 +141,11 @@ class Stats:
         self.transitions += o.transitions
         self.buckets.update(o.buckets)
         self.nontrivial |= o.nontrivial
+        have = Counter(v["fingerprint"] for v in self.violations)
         for v in o.violations:
-            if len(self.violations) < 200:
+            if have[v["fingerprint"]] < 3 and len(self.violations) < 600:
                 self.violations.append(v)
+                have[v["fingerprint"]] += 1
         self.viol_count += o.viol_count
         self.viol_fps.update(o.viol_fps)
         for s in o.samples:
